@@ -26,7 +26,8 @@ from ..eq import freeze, strict_eq
 SRC_KINDS = ["dataclass", "dataclass", "namedtuple", "attrs", "typeddict", "pydantic"]
 DST_KINDS = ["dataclass", "dataclass", "namedtuple", "attrs", "typeddict", "pydantic", "init"]
 _n = itertools.count()
-CONSTANTS = [7, "c", None, Decimal("1"), True, 1.0, (1, 2), b"x"]
+CONSTANTS = [7, "c", None, Decimal("1"), True, 1.0, (1, 2), b"x", "two\nlines", "tab\tand \"quotes\" and \\ backslash", "  leading\n    indented\n",
+             ("nested\nnewline", 1), "\r\n", "'''triple'''", (5,), [1, "a\nb"], {"k\n": "v\n"}]
 
 
 def simple(rng):
